@@ -52,7 +52,7 @@ def to_labels(trace):
     return out, unknown
 
 
-def scenario(n, mode, fmt, base, state, formats=None):
+def scenario(n, mode, fmt, base, state, formats=None, reps=1):
     """n updaters of tile (1,0,0); mode 'disjoint' (own rows), 'additive' (all +1 on the same pixels)"""
     from toasty.image import Image, ImageMode
     from toasty.pyramid import Pos
@@ -63,13 +63,14 @@ def scenario(n, mode, fmt, base, state, formats=None):
         kw = {}
         if formats is not None:
             kw["format"] = formats[i]
-        with pio.update_image(pos, masked_mode=ImageMode.F32, default="masked", **kw) as basis:
-            a = basis.asarray()
-            if mode == "disjoint":
-                a[10 * i:10 * i + 10, :] = float(i + 1)
-            else:
-                cur = np.nan_to_num(a[:8, :8], nan=0.0)
-                a[:8, :8] = cur + 1.0
+        for _rep in range(reps):
+            with pio.update_image(pos, masked_mode=ImageMode.F32, default="masked", **kw) as basis:
+                a = basis.asarray()
+                if mode == "disjoint":
+                    a[10 * i:10 * i + 10, :] = float(i + 1)
+                else:
+                    cur = np.nan_to_num(a[:8, :8], nan=0.0)
+                    a[:8, :8] = cur + 1.0
     import multiprocessing as mpx
     procs = [mpx.Process(target=updater, args=(i,)) for i in range(n)]
     for p in procs:
@@ -79,7 +80,7 @@ def scenario(n, mode, fmt, base, state, formats=None):
     return pio, pos
 
 
-def check_final(pio, pos, n, mode):
+def check_final(pio, pos, n, mode, reps=1):
     with warnings.catch_warnings():
         warnings.simplefilter("ignore")
         img = pio.read_image(pos)
@@ -91,8 +92,8 @@ def check_final(pio, pos, n, mode):
         if missing:
             return f"the contributions of updaters {missing} are missing from the final tile"
     else:
-        if not np.all(a[:8, :8] == float(n)):
-            return f"additive updates lost: final value {float(np.nanmax(np.nan_to_num(a[:8, :8])))} instead of {float(n)}"
+        if not np.all(a[:8, :8] == float(n * reps)):
+            return f"additive updates lost: final value {float(np.nanmax(np.nan_to_num(a[:8, :8])))} instead of {float(n * reps)}"
     return None
 
 
@@ -126,7 +127,7 @@ def main():
     lines, py = [], []
     k = 0
     try:
-        def one(n, mode, fmt, chooser, formats=None):
+        def one(n, mode, fmt, chooser, formats=None, reps=1):
             nonlocal k
             k += 1
             base = os.path.join(root, f"s{k}")
@@ -134,13 +135,13 @@ def main():
             box = {}
 
             def job():
-                box["pio"], box["pos"] = scenario(n, mode, fmt, base, state, formats)
+                box["pio"], box["pos"] = scenario(n, mode, fmt, base, state, formats, reps)
             sim = simmp.simulate(job, chooser, max_steps=4000, hang_window=200)
             bad = None
             if sim.outcome != "ok":
                 bad = f"did not complete ({sim.outcome}{': ' + repr(sim.main.exc) if sim.main.exc else ''})"
             else:
-                bad = check_final(box["pio"], box["pos"], n, mode)
+                bad = check_final(box["pio"], box["pos"], n, mode, reps)
                 if not bad and state["partial_reads"]:
                     bad = f"{state['partial_reads']} read(s) observed a partially written tile"
                 locks = [f for f in os.listdir(os.path.join(base, "1", "0"))] if os.path.isdir(os.path.join(base, "1", "0")) else []
@@ -154,9 +155,10 @@ def main():
             fmt = rng.choice(["npy", "fits"])
             formats = None
             chooser = simmp.RandomChooser(rng.randrange(2 ** 31), timeout_weight=0.1)
-            sim, bad, state = one(n, mode, fmt, chooser, formats)
+            reps = 2 if si % 4 == 3 else 1            # several updates of the tile by one process
+            sim, bad, state = one(n, mode, fmt, chooser, formats, reps)
             if bad:
-                h.violation(f"lost:{mode}", f"{n} updaters ({mode}, {fmt}) under a random schedule: {bad}", input={"n": n, "mode": mode, "choices": sim.choices[:300], "trace": sim.trace[:80]}, observed=bad)
+                h.violation(f"lost:{mode}", f"{n} updaters x {reps} update(s) each ({mode}, {fmt}) under a random schedule: {bad}", input={"n": n, "mode": mode, "reps": reps, "choices": sim.choices[:300], "trace": sim.trace[:80]}, observed=bad)
             labels, unknown = to_labels(sim.trace)
             # non-trivial: some lock attempt while another holds it = a 'lock' label whose predecessor region is open
             depth, contended = 0, False
@@ -170,7 +172,8 @@ def main():
             h.case(tuple(sim.choices) if begun >= 2 else None)
             h.count("updaters", n)
             h.count("mode", mode)
-            if sim.outcome == "ok" and not unknown:
+            h.count("updates_per_process", reps)
+            if sim.outcome == "ok" and not unknown and reps == 1:
                 lines.append(f"lock {n} " + " ".join(labels))
                 order = [int(l.split(":")[1]) for l in labels if l.startswith("we")]
                 py.append(f"ok file={','.join(map(str, order))} done=true partial_reads={state['partial_reads']}")
